@@ -64,6 +64,8 @@ w7 = [m for m in seeded if "-w7-" in m["id"]]
 w7first = sum(1 for m in w7 if m.get("first_verdict") == "caught")
 w8 = [m for m in seeded if "-w8-" in m["id"]]
 w8first = sum(1 for m in w8 if m.get("first_verdict") == "caught")
+w9 = [m for m in seeded if "-w9-" in m["id"]]
+w9first = sum(1 for m in w9 if m.get("first_verdict") == "caught")
 sec = r'''
 ---------------------------------------------------------------------------------------------------
 
@@ -339,6 +341,32 @@ Currently ''' + "%d changes, %d valid, %d caught" % (len(seeded), nvalid, ncaugh
   name stays in the parent's name table (`d.add_port(p, 0.5)`, then `d.create_port(name=p.name)` is refused); C14 lists
   refusals by precondition and by the naming rules, not type errors of the caller, and the S18 scenarios are therefore
   run by C01 / C02 only.
+* Wave 9 (''' + "%d changes, all 20 properties; three kinds asked for: sibling paths (right for the path everybody uses, wrong for its sibling), identity / equality / type confusions, scale (needs four or five siblings, a bus of ten or more bits, four or more levels, more than nine generated names, a name at a length limit): %d caught at once" % (len(w9), w9first) + r'''.
+  The scale kind was aimed at the small bounds of this framework, and most of its changes were missed at first.  The
+  misses led to: *bulk removals at scale* in C01 / C02 - for every container kind, every size up to 6 (8 in the
+  thorough tier) and every subset of the members, as a list and as a set, against the obvious model (a shortcut that
+  is exact for one or two removals needs three scattered removals out of four to show; Engine A names at most two of
+  three); twelve siblings sharing their first 255 characters in C03; a four-bit port fed with the inner bits of one
+  bus exchanged, and header ports each an alias of the net named like the other, in the Verilog base (C04, C06);
+  identifiers of 255 and of 256 (with `&`) characters in the EDIF texts (C05, C03); a chain twelve modules deep in 28
+  orders (C06); reference sets of a dozen members (C07); taken identifiers spelled as generated, and the counter
+  behind the generated suffixes preset to 9 / 99 / 999 (C08: "not the first uniquify of the process"); fourteen taken
+  candidates and a cell in another library under the top cell's name (C09); upper-case class escapes, same-named
+  cells side by side, independent baselines for the unfiltered results, a dozen patterns at once and the clause that
+  a pattern list gives the union of its patterns (C13); a connected pin named through any handle must be refused
+  (C14); temporary-file handles (C15); a chain of 40 cells and 6 layers of 8 cells in one library, and a comment
+  stored as a plain string (C16); copies whose identifier differs in case only (C17); port lists split over several
+  statements and nets named like black-box ports (C18); 2-5 listeners with every proper subset removed again - the
+  rest is called in registration order (C19); twelve-bit buses next to digit-ending one-bit ports and property values
+  under another type (C20).  Two changes were aimed at a property that cannot see them by its wording and are
+  detected by the check of the property they really break, which is recorded in their meta.json (C07-w8-m1 by C08,
+  C14-w9-m3 by C10).  Machinery corrections of this wave: the design constructors of `fdesigns` shared port
+  dictionaries, and an in-place edit made while adding a C15 base changed the texts C15 renders from the second
+  call of a process on, which made observations unreproducible in a fresh interpreter (found because a caught
+  change came back as UNCONFIRMED; `fdesigns.BASES` now hand out private copies); a C19 helper crashed (exit 3) on an
+  older seeded change after a path was added, found by the re-detection of all earlier changes on the final tree.
+  Six earlier patches no longer applied after the `fix:` commits of waves 8 and 9 and were re-based; two of them
+  (zip instead of indexing in the comparer) have become harmless and are marked obsolete.
 '''
 path = os.path.join(V, "DESIGN.md")
 s = open(path).read()
